@@ -24,7 +24,7 @@ def readAllowed (route : String) (src : Bytes) (p : Bytes) : Bool :=
     | none => false
   else false
 
-def handlerOf (route : String) : String :=
+def handlerOf0 (route : String) : String :=
   match route with
   | "get" => "GetObjectHandler" | "head" => "HeadObjectHandler" | "put" => "PutObjectHandler" | "putdir" => "PutObjectHandler(mkdir)"
   | "delete" => "DeleteObjectHandler" | "copy" => "CopyObjectHandler" | "mpinit" => "NewMultipartUploadHandler"
@@ -33,18 +33,22 @@ def handlerOf (route : String) : String :=
   | "tagget" => "GetObjectTaggingHandler" | "tagput" => "PutObjectTaggingHandler" | "tagdel" => "DeleteObjectTaggingHandler"
   | "list" => "ListObjectsV1Handler" | r => r
 
+/-- PutObject with a key that ends in "/" (after the router's decoding) is the gRPC mkdir branch, a different call site -/
+def handlerOf (route : String) (key : Bytes) : String :=
+  if route == "put" ∧ (pctDecode key).getLast? = some slash then "PutObjectHandler(mkdir)" else handlerOf0 route
+
 /-- judge of one request: `reads`, `writes`, `changes` = outside paths recorded / namespace differences -/
-def reqJudge (route : String) (src : Bytes) (reads writes changes : List Bytes) : Option String :=
+def reqJudge (route : String) (key src : Bytes) (reads writes changes : List Bytes) : Option String :=
   let badReads := reads.filter fun p => !readAllowed route src p
-  if !writes.isEmpty ∨ !changes.isEmpty then some (handlerOf route ++ "/writes-outside-bucket")
-  else if !badReads.isEmpty then some (handlerOf route ++ "/reads-outside-bucket")
+  if !writes.isEmpty ∨ !changes.isEmpty then some (handlerOf route key ++ "/writes-outside-bucket")
+  else if !badReads.isEmpty then some (handlerOf route key ++ "/reads-outside-bucket")
   else none
 
 /-- upload internals addressed as an ordinary object -/
 def internalJudge (bucket : Bytes) (route : String) (key : Bytes) (ok : Bool) : Option String :=
   let obj := clean ([buckets, bucket] ++ splitSlash (pctDecode key))
   if ok ∧ isPrefixOf [buckets, bucket, uploads] obj ∧ obj.length > 3 ∧ (route == "get" || route == "head" || route == "put" || route == "delete" || route == "tagput") then
-    some (handlerOf route ++ "/upload-internals-addressable")
+    some (handlerOf0 route ++ "/upload-internals-addressable")
   else none
 
 end SwV.Spec.C29
